@@ -110,6 +110,13 @@ static ALLOC: pool::PoolAlloc = pool::PoolAlloc;
 
 static NONTRIVIAL: AtomicU64 = AtomicU64::new(0);
 static FLAKY: AtomicU64 = AtomicU64::new(0);
+thread_local! {
+    /// per-thread part of NONTRIVIAL, flushed at the end of every job
+    static NT_LOCAL: std::cell::Cell<u64> = const { std::cell::Cell::new(0) };
+}
+fn flush_nontrivial() {
+    NONTRIVIAL.fetch_add(NT_LOCAL.with(|c| c.replace(0)), Ordering::Relaxed);
+}
 
 // ------------------------------------------------------------------ messages
 
@@ -400,52 +407,79 @@ fn prepare(s: &Stream, written: &[u8]) -> Prepared {
     }
 }
 
-fn judge(is_req: bool, expect: &Expect, got: &Result<Result<Got, String>, String>) -> (String, Option<(&'static str, String)>) {
-    let kind = if is_req { "request" } else { "response" };
+/// Outcome-class names without allocating on the hot path.
+fn class_name(tag: &'static str, is_req: bool, outcome: &'static str) -> &'static str {
+    match (tag, is_req, outcome) {
+        ("roundtrip", true, "ok") => "roundtrip:request",
+        ("roundtrip", false, "ok") => "roundtrip:response",
+        ("trunc", true, "error") => "trunc:request:error",
+        ("trunc", false, "error") => "trunc:response:error",
+        ("trunc", false, "prefix") => "trunc:response:prefix",
+        ("garbage", true, "error") => "garbage:request:error",
+        ("garbage", false, "error") => "garbage:response:error",
+        ("garbage-tail", true, "as-written") => "garbage-tail:request:as-written",
+        ("garbage-tail", true, "error") => "garbage-tail:request:error",
+        ("garbage-tail", false, "as-written") => "garbage-tail:response:as-written",
+        ("garbage-tail", false, "prefix") => "garbage-tail:response:prefix",
+        ("garbage-tail", false, "error") => "garbage-tail:response:error",
+        ("over-limit", true, "error") => "over-limit:request:error",
+        ("over-limit", false, "error") => "over-limit:response:error",
+        ("over-limit", false, "prefix") => "over-limit:response:prefix",
+        ("empty-list", false, "error") => "empty-list:response:error",
+        ("empty-list", false, "as-written") => "empty-list:response:as-written",
+        // violation paths and anything unforeseen: rare, may allocate
+        _ => Box::leak(format!("{tag}:{}:{outcome}", if is_req { "request" } else { "response" }).into_boxed_str()),
+    }
+}
+
+fn judge(is_req: bool, expect: &Expect, got: &Result<Result<Got, String>, String>) -> (&'static str, Option<(&'static str, String)>) {
     let got = match got {
-        Err(p) => return ("panic".into(), Some(("panic", format!("codec panicked: {p}")))),
+        Err(p) => return ("panic", Some(("panic", format!("codec panicked: {p}")))),
         Ok(g) => g,
     };
-    let list_of = |g: &Got| match g {
-        Got::Resps(l) => Some(l.clone()),
-        _ => None,
+    const NO_LIST: &[HeaderResponse] = &[];
+    let list_of = |g: &'_ Got| -> &[HeaderResponse] {
+        match g {
+            Got::Resps(l) => l,
+            _ => NO_LIST,
+        }
     };
     match expect {
         Expect::Same(want) => match got {
-            Ok(v) if v == want => (format!("roundtrip:{kind}"), None),
-            Ok(v) => ("roundtrip:different".into(), Some(("roundtrip-different-value", format!("read back {} instead of the written value", brief(v))))),
-            Err(e) => ("roundtrip:error".into(), Some(("roundtrip-error", format!("complete stream refused: {e}")))),
+            Ok(v) if v == want => (class_name("roundtrip", is_req, "ok"), None),
+            Ok(v) => ("roundtrip:different", Some(("roundtrip-different-value", format!("read back {} instead of the written value", brief(v))))),
+            Err(e) => ("roundtrip:error", Some(("roundtrip-error", format!("complete stream refused: {e}")))),
         },
         Expect::Error(tag) => match got {
-            Err(_) => (format!("{tag}:{kind}:error"), None),
+            Err(_) => (class_name(tag, is_req, "error"), None),
             Ok(v) => (
-                format!("{tag}:{kind}:accepted"),
+                class_name(tag, is_req, "accepted"),
                 Some((if *tag == "trunc" { "truncated-request-accepted" } else { "garbage-accepted" }, format!("stream accepted as {}", brief(v)))),
             ),
         },
         Expect::ProperPrefix(list, tag) | Expect::PrefixOrEqual(list, tag) => {
             let allow_equal = matches!(expect, Expect::PrefixOrEqual(..));
             match got {
-                Err(_) => (format!("{tag}:{kind}:error"), None),
+                Err(_) => (class_name(tag, is_req, "error"), None),
                 Ok(v) => {
-                    let l = list_of(v).unwrap_or_default();
-                    let is_prefix = l.len() <= list.len() && l[..] == list[..l.len()];
+                    let l = list_of(v);
+                    let is_prefix = matches!(v, Got::Resps(_)) && l.len() <= list.len() && l[..] == list[..l.len()];
                     if is_prefix && l.len() < list.len() {
-                        (format!("{tag}:{kind}:prefix"), None)
+                        (class_name(tag, is_req, "prefix"), None)
                     } else if is_prefix && allow_equal {
-                        (format!("{tag}:{kind}:as-written"), None)
+                        (class_name(tag, is_req, "as-written"), None)
                     } else if is_prefix {
-                        (format!("{tag}:{kind}:as-written"), Some(("truncated-response-accepted-as-complete", format!("cut stream read as the complete list of {} entries", l.len()))))
+                        (class_name(tag, is_req, "as-written"), Some(("truncated-response-accepted-as-complete", format!("cut stream read as the complete list of {} entries", l.len()))))
                     } else {
-                        (format!("{tag}:{kind}:different"), Some(("stream-read-as-different-value", format!("read {} which is not a prefix of the written list", brief(v)))))
+                        (class_name(tag, is_req, "different"), Some(("stream-read-as-different-value", format!("read {} which is not a prefix of the written list", brief(v)))))
                     }
                 }
             }
         }
         Expect::ErrorOrSame(want, tag) => match got {
-            Err(_) => (format!("{tag}:{kind}:error"), None),
-            Ok(v) if v == want => (format!("{tag}:{kind}:as-written"), None),
-            Ok(v) => (format!("{tag}:{kind}:different"), Some(("stream-read-as-different-value", format!("read {} instead of the written value", brief(v))))),
+            Err(_) => (class_name(tag, is_req, "error"), None),
+            Ok(v) if v == want => (class_name(tag, is_req, "as-written"), None),
+            Ok(v) => (class_name(tag, is_req, "different"), Some(("stream-read-as-different-value", format!("read {} instead of the written value", brief(v))))),
         },
     }
 }
@@ -481,10 +515,10 @@ fn eval(env: &Env, s: &Stream, prep: &Prepared, chunks: &Chunks, pending: bool, 
             }
         }
     }
-    rep.case_nokey(&class);
+    rep.case_nokey(class);
     rep.states += 1;
     if chunks.splits(prep.bytes.len()) || s.truncate.is_some() || s.garbage.is_some() {
-        NONTRIVIAL.fetch_add(1, Ordering::Relaxed);
+        NT_LOCAL.with(|c| c.set(c.get() + 1));
     }
     let case = || {
         json!({
@@ -746,11 +780,18 @@ fn main() {
         responses_of_size(RESPONSE_SIZE_LIMIT + 1, 3, env.seed),
     ];
 
+    // phase A: garbage, size limits, structured chunkings / truncations of every message
     let mut jobs: Vec<Job> = vec![];
     for g in 0..garbage().len() {
         jobs.push(Job::Garbage(true, g));
         jobs.push(Job::Garbage(false, g));
     }
+    for i in 0..limits.len() {
+        jobs.push(Job::Limit(i));
+    }
+    // phases B(n), n = 1, 2, ...: all compositions of the messages whose stream has n bytes
+    let top_n = nmax.max(nmax_req);
+    let mut compose_by_n: Vec<Vec<Job>> = vec![vec![]; top_n + 1];
     for (i, m) in msgs.iter().enumerate() {
         jobs.push(Job::Structured(i));
         let n = reference_bytes(m).len();
@@ -759,20 +800,16 @@ fn main() {
             let step = 1u64 << 12;
             let mut lo = 0;
             while lo < total {
-                jobs.push(Job::Compose(i, lo, (lo + step).min(total)));
+                compose_by_n[n].push(Job::Compose(i, lo, (lo + step).min(total)));
                 lo += step;
             }
         }
     }
-    for i in 0..limits.len() {
-        jobs.push(Job::Limit(i));
-    }
-    // cheap jobs first, compositions ordered by message (simplest first)
     let composed_msgs = AtomicU64::new(0);
 
-    let mut rep = par_cases(jobs, |job, rep| {
+    let run_jobs = |jobs: Vec<Job>| par_cases(jobs, |job, rep| {
         if t0.elapsed() > wall_cap {
-            rep.cap_hit("wall cap: some jobs skipped");
+            rep.cap_hit("wall cap: some jobs of the running phase skipped");
             return;
         }
         match job {
@@ -875,7 +912,30 @@ fn main() {
                 }
             }
         }
+        flush_nontrivial();
     });
+    let mut rep = run_jobs(jobs);
+    let mut completed_n = 0usize;
+    for (n, blocks) in compose_by_n.into_iter().enumerate() {
+        if blocks.is_empty() {
+            if completed_n + 1 == n || n == 0 {
+                completed_n = n;
+            }
+            continue;
+        }
+        if t0.elapsed() > wall_cap {
+            rep.cap_hit(&format!("wall cap: all-compositions phases for streams of {n}.. bytes not run"));
+            break;
+        }
+        let r = run_jobs(blocks);
+        let capped = !r.caps_hit.is_empty();
+        rep.merge_in(r);
+        if capped {
+            break;
+        }
+        completed_n = n;
+    }
+    rep.extra("all_compositions_completed_up_to_bytes", json!(completed_n));
     rep.extra("messages_small", json!(n_small));
     rep.extra("messages_real_size", json!(msgs.len() - n_small));
     rep.extra("messages_at_size_limits", json!(limits.len()));
